@@ -40,6 +40,7 @@ type FuncSpec struct {
 	Unroll   map[int]int
 	LoopMod  map[int][]string
 	Inline   bool
+	MapOrder      bool // static obligation: no result depends on map iteration order (every map range only collects into a slice that is sorted before any other use)
 	Deterministic bool // static obligation: no map range, select, go, time/rand/env calls, no reads of package variables
 	Panics   bool // generate panic obligations
 	Arith    bool // overflow obligations
@@ -334,6 +335,8 @@ func (db *SpecDB) parseClause(fs *FuncSpec, word, rest string, line int) error {
 		}
 	case "deterministic":
 		fs.Deterministic = true
+	case "maporder":
+		fs.MapOrder = true
 	case "inline":
 		fs.Inline = true
 	case "trusted":
